@@ -33,6 +33,12 @@ Emit == kind # "root" => PrintT(ToJson([kind |-> kind, mods |-> ms, ctype |-> ct
                                          direct |-> CosmeticOption(Direct)]))
 \* the content type never changes what a document-level exception does to its page
 CTypeIrrelevant == (kind = "exception" /\ TheRule.docOpts # {}) => CosmeticOption(Basic) = CosmeticOption(RuleOf(TRUE, ms))
+\* what the page a request comes from is excepted from changes which blocking rules count (Verdict!Admitted), never the
+\* cosmetic option of the request: that is decided by the request's own basic rule
+RefRules == { [BaseRule EXCEPT !.pat = Str("||ref.test^"), !.white = TRUE, !.docOpts = o] :
+                o \in { Doc5, {"urlblock"}, {"genericblock"}, {"elemhide"} } }
+ReferrerIrrelevant == kind # "root" =>
+    \A x \in RefRules : CosmeticOption(IF Direct # Nil /\ Admitted(Direct, {x}) THEN Direct ELSE Nil) = CosmeticOption(Direct)
 \* no combination re-enables an option: adding a modifier only shrinks the option
 Antitone == kind = "exception" => \A m \in Mods : CosmeticOption(RuleOf(TRUE, ms \cup {m})) \subseteq CosmeticOption(Direct)
 \* the option is All minus the union of what each modifier disables ("document" includes elemhide and jsinject)
